@@ -394,6 +394,26 @@ def boundary_cases():
                         cases.append(mk(plen=L, rlen=R, szx0=szx0, default=(ssz, False),
                                         choices=((6, False), (6, False), (ssz, False)),
                                         mis={"kind": kind, "n": n}))
+    # a wrong Block1 number in both directions, a wrong first Block2 number, cuts of every size
+    for delta in (-1, 1, 2, 100):
+        for n in (1, 2, 3):
+            cases.append(mk(plen=100, rlen=10, szx0=0, default=(0, False),
+                            mis={"kind": "wrongnum1", "n": n, "delta": delta}))
+            cases.append(mk(plen=3000, rlen=10, szx0=6, default=(5, False),
+                            mis={"kind": "wrongnum1", "n": n, "delta": delta}))
+    for delta in (0, 1, 5):
+        cases.append(mk(plen=0, rlen=100, szx0=2, default=(1, False), method="GET",
+                        mis={"kind": "first_nonzero", "n": 0, "delta": delta}))
+        cases.append(mk(plen=10, rlen=100, szx0=2, default=(1, False),
+                        mis={"kind": "b1_unfrag_wrongnum", "n": 0, "delta": delta}))
+    for cut in (0, 1, 14, 15):
+        for n in (0, 1, 2):
+            cases.append(mk(plen=0, rlen=100, szx0=6, default=(0, False), method="GET",
+                            mis={"kind": "short_block", "n": n, "cut": cut}))
+    for extra in (0, 1, 15, 16, 17):
+        for n in (0, 1, 6):
+            cases.append(mk(plen=0, rlen=100, szx0=6, default=(0, False), method="GET",
+                            mis={"kind": "long_block", "n": n, "extra": extra}))
     return cases
 
 
@@ -502,6 +522,8 @@ def run(env, rep):
             if kind is not None:
                 malformed += 1
                 rep.count("misbehaviour-triggered=%s" % obs["server"].triggered)
+                if obs["server"].triggered:
+                    rep.count("triggered:" + kind)
             rep.count("outcome=" + (obs["outcome"][0] if obs["outcome"][0] != "err" else "err:" + obs["outcome"][1]))
             rep.count("client-szx=%d" % case["szx0"])
             rep.count("exchanges=" + ("0-1" if nex < 2 else "2-8" if nex <= 8 else "9-64" if nex <= 64 else "65+"))
@@ -530,9 +552,11 @@ def run(env, rep):
             rep.case({"blockopt": c}, nontrivial=False)
         rep.count("blockopt-cases", len(bc))
         compare(env, rep, bc, bl, bo, what="BlockwiseTuple")
-        for need in ("server=conforming", "upload-size-reduced-midway", "download-size-reduced-midway",
-                     "outcome=err:ResourceChanged", "outcome=err:UnexpectedBlock1Option",
-                     "outcome=err:UnexpectedBlock2", "outcome=err:NotImplemented", "outcome=pending"):
+        # coverage gate on what the generator/reference server did (never on what the
+        # implementation answered)
+        for need in (["server=conforming", "upload-size-reduced-midway", "download-size-reduced-midway",
+                      "upload=unfragmented", "upload=blockwise", "download=single", "download=blockwise"]
+                     + ["triggered:" + k for k in ref.KINDS]):
             if not rep.hist.get(need):
                 raise HarnessError("generator never produced " + need)
     finally:
